@@ -19,8 +19,8 @@ CHECKS = {
  "C05": ("model_checking", SEQ, "All sequences of length<=3/4; PIT and (OOT,PIT) reads at every recorded instant +-1us in both date modes equal the reference folds; account/transaction visibility and reverted flag at t. The same reads with the same reference on a twin ledger (other bucket) into which the export of every enumerated history is imported.", PGSIM_NOTE, "5 Group A"),
  "C08": ("model_checking", SEQ, "Sequential half: all sequences of length<=3/4 over every write kind plus failing and dry-run writes; exactly one log per successful write and none otherwise, ids increasing, state rebuilt from log payloads alone equals every read. Concurrent half (K2): 4 scenarios of 2-3 concurrent writers (disjoint creates, mixed kinds with a dry run, a failing writer in between, HASH_LOGS=DISABLED), every schedule with <=2 preemptions (thorough: all): one log per committed write, log ids strictly increasing along the order in which COMMITs executed, final state == replay of the committed writes. 1 known finding (HASH_LOGS != SYNC: log ids follow statement order, not commit order).", PGSIM_NOTE + "; concurrent half: Go code between two driver calls is executed atomically; commit order = order in which COMMIT calls were scheduled", "5 Group B"),
  "C15": ("model_checking", SEQ, "Sequential half: all sequences of length<=3/4 over creates and reverts (plain/forced/at effective date/dry run, reverts of reverts, second reverts): postings inverse, mark, timestamp rule, single success, no effect on failure, balances unchanged by the pair. Also a revert whose request metadata uses the reserved revert-mark key.", PGSIM_NOTE, "5 Group B"),
- "C17": ("model_checking", SEQ, "For each of the 4 metadata-history feature combinations: all sequences of length<=3/4 over every metadata write path; current metadata == last-write-wins fold; PIT reads == revision at t (SYNC) or current metadata (DISABLED). The alphabet includes post-dated and back-dated creates that carry metadata for an account that already has some.", PGSIM_NOTE, "5 Group A"),
- "C18": ("model_checking", SEQ, "All sequences of length<=3/4 over back/future-dated creates, failing creates and metadata-only accounts: listed set, firstUsage (lowered by back-dating), insertionDate immutable, PIT visibility.", PGSIM_NOTE, "5 Group A"),
+ "C17": ("model_checking", SEQ, "For each of the 4 metadata-history feature combinations: all sequences of length<=3/4 over every metadata write path; current metadata == last-write-wins fold; PIT reads == revision at t (SYNC) or current metadata (DISABLED). The alphabet includes post-dated and back-dated creates that carry metadata for an account that already has some. The same current and point-in-time reads with the same reference on a twin ledger (same features, other bucket) into which the export of every enumerated history is imported (1 known finding: an imported account-metadata deletion is dated at the import).", PGSIM_NOTE, "5 Group A"),
+ "C18": ("model_checking", SEQ, "All sequences of length<=3/4 over back/future-dated creates, failing creates and metadata-only accounts: listed set, firstUsage (lowered by back-dating), insertionDate immutable, PIT visibility. The same reads with the same reference on a twin ledger into which the export of every enumerated history is imported.", PGSIM_NOTE, "5 Group A"),
  "C24": ("exploration", "bounded-exhaustive enumeration of portion vectors x amounts against an arithmetic reference",
          "Every allotment of length<=4(5) over rationals with denominator<=7(8) incl. zero portions and `remaining` at every position, percent literals through the real parser, times boundary amounts (2^31..2^64 +-1, amounts straddling 2^31/2^32/2^53/2^63/2^64 for each numerator, 10^30), allocated by the real Allotment.Allocate and compared with floor+leftover-to-earliest; plus a VM leg: every vector of length<=3 (incl. empty portions, portion variables) compiled as source and destination allotments and run on the real machine, oracle on the postings. Spelling leg (first): every percent I[.F]% with leading/trailing zeros and values below 1% and every fraction N/D with leading zeros and blanks, read independently in base ten and compared with ParsePortionSpecific, then run as allotment literal, portion variable and metadata portion on the real machine.",
          "machine.NewAllotment/Allocate called directly, and the real compiler + machine for the VM leg; no SQL involved", "5 Group E"),
